@@ -151,6 +151,44 @@ def unrolled(model: Model, fi: FuncInfo) -> FuncInfo:
     return out
 
 
+class _TableCalls(ast.NodeTransformer):
+    """TABLE["key"](args) with TABLE a module-level literal dict that nothing writes and "key" a constant: the call of
+    the function that entry names (also TABLE.get("key")(..))"""
+
+    def __init__(self, model: Model, fi: FuncInfo):
+        self.model, self.fi, self.n = model, fi, 0
+
+    def visit_Call(self, node: ast.Call):
+        self.generic_visit(node)
+        f = node.func
+        key = tbl = None
+        if isinstance(f, ast.Subscript) and isinstance(f.value, ast.Name) and isinstance(f.slice, ast.Constant):
+            tbl, key = f.value, f.slice
+        elif isinstance(f, ast.Call) and isinstance(f.func, ast.Attribute) and f.func.attr == "get" and isinstance(f.func.value, ast.Name) and len(f.args) == 1 and isinstance(f.args[0], ast.Constant) and not f.keywords:
+            tbl, key = f.func.value, f.args[0]
+        if tbl is None:
+            return node
+        lit = self.fi.module.assigns.get(tbl.id)
+        if not isinstance(lit, ast.Dict) or tbl.id in self.fi.params:
+            return node
+        for g in self.model.funcs.values():
+            if g.module is not self.fi.module:
+                continue
+            for n in own_nodes(g):
+                if (isinstance(n, ast.Name) and n.id == tbl.id and isinstance(n.ctx, (ast.Store, ast.Del))) or (isinstance(n, ast.Global) and tbl.id in n.names):
+                    return node
+                if isinstance(n, ast.Subscript) and isinstance(n.ctx, (ast.Store, ast.Del)) and isinstance(n.value, ast.Name) and n.value.id == tbl.id:
+                    return node
+                if isinstance(n, ast.Call) and isinstance(n.func, ast.Attribute) and isinstance(n.func.value, ast.Name) and n.func.value.id == tbl.id and n.func.attr in ("update", "setdefault", "pop", "clear", "popitem", "__setitem__"):
+                    return node
+        vals = [v for k, v in zip(lit.keys, lit.values) if isinstance(k, ast.Constant) and k.value == key.value and type(k.value) is type(key.value)]
+        if len(vals) != 1 or not isinstance(vals[0], ast.Name) or not all(isinstance(k, ast.Constant) for k in lit.keys):
+            return node
+        self.n += 1
+        new = ast.copy_location(ast.Call(func=ast.copy_location(ast.Name(id=vals[0].id, ctx=ast.Load()), f), args=node.args, keywords=node.keywords), node)
+        return new
+
+
 def _inline_returned_helpers(model: Model, fi: FuncInfo, body: List[ast.stmt]) -> Tuple[List[ast.stmt], bool]:
     """every `return self._h(..)` statement of the body - at any nesting depth, it is a tail position wherever it
     stands - replaced by the statements of the private, single-use helper _h"""
@@ -242,9 +280,12 @@ def _tail_helper_body(model: Model, fi: FuncInfo, body: List[ast.stmt], caller_n
             return None
         ren[h.pos_params[0]] = call.func.value.id
     pre: List[ast.stmt] = []
+    const_args: Dict[str, ast.Constant] = {}
     for p_, a_ in zip(h.pos_params[skip:], call.args):
         if isinstance(a_, ast.Name):
             ren[p_] = a_.id
+        elif isinstance(a_, ast.Constant):
+            const_args[p_] = a_  # a constant argument is that constant wherever the parameter is read
         else:
             # an argument expression is evaluated once, before the helper's body: a temporary named after the parameter
             tmp = f"{p_}_arg"
@@ -255,7 +296,7 @@ def _tail_helper_body(model: Model, fi: FuncInfo, body: List[ast.stmt], caller_n
             ren[p_] = tmp
     # a parameter of the helper must not be re-bound there (it would re-bind the caller's local: harmless, but keep it simple)
     stores = {x.id for st in h.node.body for x in ast.walk(st) if isinstance(x, ast.Name) and isinstance(x.ctx, ast.Store)}
-    if stores & set(ren):
+    if stores & (set(ren) | set(const_args)):
         return None
     caller_names = (caller_names or set()) | {x.id for st in body for x in ast.walk(st) if isinstance(x, ast.Name)} | set(fi.pos_params)
     for loc in stores:
@@ -265,11 +306,13 @@ def _tail_helper_body(model: Model, fi: FuncInfo, body: List[ast.stmt], caller_n
     # nested functions / lambdas of the helper move along unchanged: they must not mention anything that is renamed
     for nf in nested:
         inner = {x.id for x in ast.walk(nf) if isinstance(x, ast.Name)} | {a.arg for a in ast.walk(nf) if isinstance(a, ast.arg)}
-        if inner & set(ren):
+        if inner & (set(ren) | set(const_args)):
             return None
 
     class _R(ast.NodeTransformer):
         def visit_Name(self, n: ast.Name):
+            if n.id in const_args and isinstance(n.ctx, ast.Load):
+                return ast.copy_location(ast.Constant(value=const_args[n.id].value), n)
             if n.id in ren:
                 return ast.copy_location(ast.Name(id=ren[n.id], ctx=n.ctx), n)
             return n
@@ -374,12 +417,18 @@ def _unroll(model: Model, fi: FuncInfo) -> FuncInfo:
     changed = changed or ch
     body, ch = _sink_tail(body)
     changed = changed or ch
-    for _ in range(2):
+    for _ in range(3):
         body, ch = _inline_returned_helpers(model, fi, body)
         if not ch:
             break
         changed = True
         body, ch2 = tables(body)
+        # a constant that arrived as an argument may now select an entry of a dispatch table
+        tc = _TableCalls(model, fi)
+        body = [tc.visit(clone_ast(st_)) if any(isinstance(x, ast.Subscript) or (isinstance(x, ast.Attribute) and x.attr == "get") for x in ast.walk(st_)) else st_ for st_ in body]
+        if tc.n:
+            for st_ in body:
+                _fresh(st_)
     new_body = body
     if not changed:
         return fi
